@@ -6,6 +6,7 @@
   Open recursion + fuel: `run (n+1) = step (run n)`.
 -/
 import RsjModel.Core
+import RsjModel.Bind
 namespace Rsj.Eval
 open Rsj.Core
 
@@ -419,50 +420,17 @@ def jsonEscape (s : String) : String :=
     else acc ++ [c]) []
   "\"" ++ String.ofList body ++ "\""
 
-/-! ### Argument binding (`check_call_args_generic`) -/
+/-! ### Argument binding (`check_call_args_generic`): plan in RsjModel/Bind.lean -/
 
-/-- Positional / named arguments after their thunks were created. -/
-structure BoundArgs where
-  pos : List TId
-  named : List (String × TId)
+def bindErr : Bind.BindErr → Err
+  | .tooManyCallArgs n => .rt "TooManyCallArgs" (toString n)
+  | .unknownCallParam n => .rt "UnknownCallParam" n
+  | .repeatedCallParam n => .rt "RepeatedCallParam" n
+  | .callParamNotBound n => .rt "CallParamNotBound" n
 
-/-- Returns the argument thunks in parameter order; `mkDefault` creates the
-    thunk of a default-value expression in the arguments environment. -/
-def bindArgs (params : List (String × OptExpr)) (args : BoundArgs) (funcEnv : Option EId)
-    (newDefault : Expr → EId → M TId) : M (List TId) := do
-  let np := params.length
-  if args.pos.length > np then
-    throw (.rt "TooManyCallArgs" (toString np))
-  if args.pos.length == np && args.named.isEmpty then
-    return args.pos
-  let npos := args.pos.length
-  -- named arguments into a temporary vector
-  let mut tmp : List (Option TId) := List.replicate (np - npos) none
-  for (n, t) in args.named do
-    match params.findIdx? (fun p => p.1 == n) with
-    | none => throw (.rt "UnknownCallParam" n)
-    | some pi =>
-      if pi < npos then throw (.rt "RepeatedCallParam" n)
-      match tmp[pi - npos]? with
-      | some (some _) => throw (.rt "RepeatedCallParam" n)
-      | _ => tmp := tmp.set (pi - npos) (some t)
-  if tmp.all Option.isSome then
-    return args.pos ++ tmp.filterMap id
-  -- an environment is required to evaluate default arguments
-  let argsEnv ← allocEnv { parent := none, vars := [], obj := none }
-  let mut out : List TId := args.pos
-  for (slot, (pn, pd)) in tmp.zip (params.drop npos) do
-    match slot with
-    | some t => out := out ++ [t]
-    | none =>
-      match pd with
-      | .none => throw (.rt "CallParamNotBound" pn)
-      | .some e => out := out ++ [← newDefault e argsEnv]
-  let o ← match funcEnv with
-    | some p => do pure (← getEnv p).obj
-    | none => pure none
-  setEnv argsEnv { parent := funcEnv, vars := (params.map Prod.fst).zip out, obj := o }
-  pure out
+def hasDefault : OptExpr → Bool
+  | .none => false
+  | .some _ => true
 
 /-! ### The evaluator -/
 
@@ -938,30 +906,40 @@ def step : Task → M Value
       let cv ← rec (.eval ce env false d)
       let .func f := cv | throw (.rt "CalleeIsNotFunction" (typeName cv))
       let fn ← getFunc f
-      -- thunks are created first for the positional, then for the named arguments
       let split := argsSplit args
+      let posEs := split.filterMap (fun p => if p.1.isNone then some p.2 else none)
+      let namedEs := split.filterMap (fun p => p.1.map (fun n => (n, p.2)))
+      let slots ← match Bind.bindPlan (fn.params.map (fun p => (p.1, hasDefault p.2))) posEs.length
+          (namedEs.map Prod.fst) with
+        | .error e => throw (bindErr e)
+        | .ok slots => pure slots
       let mut pos : List TId := []
-      for (n, ae) in split do
-        if n.isNone then pos := pos ++ [← newThunk ae env]
-      if pos.length > fn.params.length then
-        throw (.rt "TooManyCallArgs" (toString fn.params.length))
-      let mut named : List (String × TId) := []
-      let mut fast := pos.length == fn.params.length && split.all (fun p => p.1.isNone)
-      if !fast then
-        -- named thunks are created one by one while the names are checked
-        let npos := pos.length
-        let mut seen : List String := []
-        for (n, ae) in split do
-          match n with
-          | none => pure ()
-          | some n =>
-            match fn.params.findIdx? (fun p => p.1 == n) with
-            | none => throw (.rt "UnknownCallParam" n)
-            | some pi =>
-              if pi < npos || seen.contains n then throw (.rt "RepeatedCallParam" n)
-              seen := n :: seen
-              named := named ++ [(n, ← newThunk ae env)]
-      let argThunks ← bindArgs fn.params { pos, named } (some fn.env) (fun e ae => newThunk e ae)
+      for ae in posEs do
+        pos := pos ++ [← newThunk ae env]
+      let mut named : List TId := []
+      for (_, ae) in namedEs do
+        named := named ++ [← newThunk ae env]
+      -- an environment (all parameters visible) is needed only when a default is used
+      let needEnv := slots.any (· == .dflt)
+      let argsEnv ← if needEnv then allocEnv { parent := none, vars := [], obj := none } else pure 0
+      let mut argThunks : List TId := []
+      for (slot, (_, pd)) in slots.zip fn.params do
+        match slot with
+        | .pos i =>
+          match pos[i]? with
+          | some t => argThunks := argThunks ++ [t]
+          | none => throw (.internal "binding plan refers to a missing positional argument")
+        | .named j =>
+          match named[j]? with
+          | some t => argThunks := argThunks ++ [t]
+          | none => throw (.internal "binding plan refers to a missing named argument")
+        | .dflt =>
+          match pd with
+          | .some de => argThunks := argThunks ++ [← newThunk de argsEnv]
+          | .none => throw (.internal "default slot without default expression")
+      if needEnv then
+        setEnv argsEnv { parent := some fn.env, vars := (fn.params.map Prod.fst).zip argThunks,
+                         obj := (← getEnv fn.env).obj }
       if ts && tail then
         for t in argThunks do
           checkDepth cfg (d + 1)
